@@ -74,6 +74,9 @@ class Dev(object):
     if not ok or not self.out:
       raise ue.UsbReadFailedError(_UsbErr(), 'read timed out')
     chunk, meta = self.out.pop(0)
+    if meta is not None and getattr(self, 'hdr_lag', 0):
+      # the transfer of a header takes (virtual) time: the caller's timeout may run out before the payload is asked for
+      s.block(lambda: False, self.hdr_lag, 'usb-lag')
     if meta is not None:
       self.consumed.append(meta)
       s.log('dev-consumed', self, meta)
@@ -100,6 +103,8 @@ class Dev(object):
       rid = 100 + a0
       self.remote_of[a0] = rid
       self.push('OKAY', rid, a0)
+      if getattr(self, 'greet', None):
+        self.push('WRTE', rid, a0, self.greet)      # the service's first output right behind the OKAY
     elif cmd == 'WRTE':
       # a0 = host local id, a1 = remote id: one WRTE in flight per stream
       if self.unread_okay.get(a0, 0) > 0 or self.hold.get(a0):
@@ -184,6 +189,7 @@ def _body(case, res):
         dev.push('CLSE', dev.remote_of[lid], lid)
       elif kind == 'E':
         dev.echo.setdefault(lid, []).append(payload)
+    dev.hdr_lag = case.get('hdr_lag', 0)      # (after the streams are open)
     got = {i: [] for i in range(case['nstreams'])}
     errs = {}
     res['got'], res['errs'] = got, errs
@@ -346,7 +352,77 @@ def _run_reopen(case):
   return {'broken': True, 'facts': facts, 'reopen': True}
 
 
+def _run_open(case):
+  """a thread opens a new stream while another thread, reading its own stream, is the connection's reader: the device
+  answers the OPEN with OKAY and sends the new stream's first data right behind it - both may be demultiplexed by the
+  OTHER thread before the opener looks at its queue"""
+  ap = _setup()
+  from openhtf.plugs.usb import adb_message as am
+  from openhtf.plugs.usb import usb_exceptions as ue
+  res = {'facts': []}
+
+  def body(s):
+    dev = Dev(s)
+    dev.greet = 'hello'
+    conn = ap.AdbConnection(am.AdbTransportAdapter(dev), 4096, 'device:SER:banner')
+    facts = res['facts']
+    dev.greet = None
+    a = conn.open_stream('a:', timeout_ms=5000)
+    la, ra = a._transport.local_id, dev.remote_of[a._transport.local_id]
+    dev.greet = 'hello'
+    got = {'a': [], 'b': []}
+
+    def reader_a():
+      try:
+        n = 0
+        while n < case['na']:
+          d = a.read(timeout_ms=600000)
+          got['a'].append(d)
+          n += len(d)
+      except Exception as e:  # pylint: disable=broad-except
+        facts.append('X:reader-of-the-other-stream-raised:' + c15._errkind(e, ue))
+
+    def opener():
+      try:
+        b = conn.open_stream('b:', timeout_ms=600000)
+        if b is None:
+          facts.append('X:open-refused')
+          return
+        n = 0
+        while n < 5:
+          d = b.read(timeout_ms=600000)
+          got['b'].append(d)
+          n += len(d)
+      except Exception as e:  # pylint: disable=broad-except
+        facts.append('X:opener-raised:' + c15._errkind(e, ue))
+
+    def feeder():
+      # the device keeps stream a busy, so that a's thread is inside the connection read when the OPEN is answered
+      for i in range(case['na']):
+        dev.push('WRTE', ra, la, 'x')
+        s.block(lambda: False, 0.001, 'feed')
+    ths = [threading.Thread(target=f) for f in (reader_a, opener, feeder)]
+    for t, n in zip(ths, ('ra', 'op', 'fd')):
+      t._cosched_name = n
+      t.start()
+    for t in ths:
+      t.join()
+    if ''.join(got['a']) != 'x' * case['na']:
+      facts.append('X:other-stream-data-wrong')
+    if ''.join(got['b']) != 'hello' and not any(f.startswith('X:opener') for f in facts):
+      facts.append('X:new-stream-data-wrong:' + _hex(''.join(got['b'])))
+    return True
+  early = (common.Rng('c14oe/%s' % case['rseed']), 0.6, 0.05)
+  box, s = sched.run(sched.chooser_for(case, 'c14o'), body, max_steps=60000, early_timers=early)
+  facts = res['facts']
+  if s.deadlock or 'sched_error' in box:
+    facts.append('X:deadlock-or-stuck')
+  return {'broken': True, 'facts': facts, 'reopen': True}
+
+
 def run_real(case):
+  if case.get('kind') == 'open':
+    return _run_open(case)
   if case.get('kind') == 'reopen':
     return _run_reopen(case)
   res = {}
@@ -406,6 +482,8 @@ def encode(case, o):
 
 
 def classify(case, o):
+  if case.get('kind') == 'open':
+    return 'open-while-another-stream-reads'
   if case.get('kind') == 'reopen':
     return 'reopen/' + case['when']
   return '%ds/%dthr/%s' % (case['nstreams'], len(case['threads']), 'dfs' if case.get('choices') is not None else 'rnd')
@@ -490,6 +568,18 @@ def gen_cases(rng, tier):
     cases.append({'nstreams': 2, 'dev': [(0, 'W', 'a1'), (1, 'W', 'b1'), (1, 'W', 'b2'), (0, 'W', 'a2'), (1, 'W', 'b3')],
                   'threads': [('R', 0, 4), ('R', 1, 6)], 'maxdata': 4096, 'timeout_ms': 600000,
                   'early': r.choice([0.3, 0.6, 0.9]), 'rseed': r.getrandbits(32), 'switch': r.choice([0.3, 0.6, 0.9])})
+  # a read whose timeout runs out while the header of a payload-carrying message is being transferred: the payload is
+  # read all the same (nothing may be left on the wire for the next reader)
+  for lag, tmo in ((0.06, 50), (0.03, 50), (0.06, 100), (0.2, 50)):
+    for threads in ([('R', 0, 16)], [('L', 0, (16, 4))], [('L', 0, (16, 8))]):
+      ns = 1 + max(t[1] for t in threads)
+      dev = [(0, 'W', 'part-one'), (0, 'W', 'part-two')] + ([(1, 'W', 'zz')] if ns > 1 else [])
+      for i in range(3 if quick else 30):
+        cases.append({'nstreams': ns, 'dev': dev, 'threads': threads, 'maxdata': 4096, 'timeout_ms': tmo, 'hdr_lag': lag,
+                      'rseed': rng.derive('lag%d' % i).getrandbits(32), 'switch': 0.3})
+  for i in range(150 if quick else 3000):
+    r = rng.derive('open%d' % i)
+    cases.append({'kind': 'open', 'na': r.choice([2, 4, 6]), 'rseed': r.getrandbits(32)})
   for when in ('before-close', 'after-close', 'after-open'):
     for stale in (['W'], ['Z'], ['W', 'W'], ['W', 'Z']):
       for pre in (0, 1, 3):
